@@ -239,6 +239,21 @@ def explore(run, tier):
                 c = c01.mk(cfg, 'latin_1', 0, {'MTI': '1144', f'DE{k}': v}, {})
                 c['overlong'] = f'DE{k} with {mx + 1} characters'
                 cases.append(c)
+    # caller configurations whose entries have NO `field_name` (a description for people), with over-long variable values
+    # (refused with the library's error) and ordinary messages; and a FIXED element of width 0 that is present (its bit is
+    # set, nothing is emitted for it, and it reads back as the empty text)
+    bare = {'2': {'field_type': 'LLVAR', 'field_length': 0}, '3': {'field_type': 'FIXED', 'field_length': 6},
+            '48': {'field_type': 'LLLVAR', 'field_length': 0}, '60': {'field_type': 'FIXED', 'field_length': 0},
+            '61': {'field_type': 'FIXED', 'field_length': 3}}
+    for ci, codec in enumerate(codecs3):
+        for hexbm in (0, 1):
+            cases.append(c01.mk(bare, codec, hexbm, {'MTI': '1240', 'DE2': '5' * 16, 'DE3': '123456', 'DE48': 'free text'}, {}))
+            cases.append(c01.mk(bare, codec, hexbm, {'MTI': '1240', 'DE3': '123456', 'DE60': 'abc', 'DE61': 'xyz'}, {}))
+            cases.append(c01.mk(bare, codec, hexbm, {'MTI': '1240', 'DE60': 'q'}, {}))
+        for k, n in (('2', 100), ('2', 250), ('48', 1000), ('48', 1234)):
+            c = c01.mk(bare, codec, ci % 2, {'MTI': '1144', f'DE{k}': '7' * n}, {})
+            c['overlong'] = f'DE{k} with {n} characters'
+            cases.append(c)
     # a message dict holding an element the configuration in use does not define (packaged: DE7, 8, 11, 13, ...; a
     # smaller caller configuration: anything it leaves out)
     undefined = [b for b in range(2, 129) if str(b) not in pkg]
